@@ -399,6 +399,13 @@ func pmGenKernel(t *rapid.T, regs []pmRegion) (ks, ke uint64, where string, ok b
 	r := regs[cand[rapid.IntRange(0, len(cand)-1).Draw(t, "kregion")]]
 	s, e, _ := r.whole()
 	n := e - s + 1
+	if tail := r.Addr + r.Len - (e+1)<<12; tail > 0 && tail < 4096 && rapid.IntRange(0, 7).Draw(t, "kintailonly") == 0 {
+		// the whole image sits in the partial page behind the region's last whole frame: a
+		// page-aligned start inside the region, like any other
+		ks = (e + 1) << 12
+		ke = ks + uint64(rapid.IntRange(1, int(tail)).Draw(t, "ktailonlybytes"))
+		return ks, ke, "tail-page-only", true
+	}
 	var first, last uint64
 	switch rapid.IntRange(0, 5).Draw(t, "kwhere") {
 	case 0:
